@@ -94,6 +94,7 @@ void cv_on_throw(var obj) {
 }
 static void build(void) {
   t = (struct Tree*)header_init(&TO.h, Tree, AllocHeap);
+  { struct Tree any_state; *t = any_state; }      /* fields the invariant below does not pin down are arbitrary */
   t->ktype = ELEM; t->vtype = ELEM; t->ksize = sizeof(struct Elem); t->vsize = sizeof(struct Elem); t->nitems = SH_N;
   t->root = SH_N ? (var)&POOL[SH_ROOT] : NULL;
   for (int i = 0; i < SH_N; i++) {
